@@ -64,6 +64,7 @@ class Fixture(object):
                              script=self.script, serve_eof=True, serve_all_sides=("B",) if b_serve_all else (),
                              prepare=self._wrap_conn)
         self.simtime = sim.SimTime(p.sched)
+        p.max_steps = 30000          # (a whole fault run takes a few thousand steps)
         if warm:
             # first contact (GETROOT, and the INSPECT round trip made from inside the unboxing of the root reference) is a nested
             # exchange the teardown specification does not model: workloads whose logs go to TLC start after it
@@ -221,6 +222,11 @@ def run(chk, wname, fault=None, frag=None, timeout=None, close_order="single", j
         except sim.Deadlock as ex:
             problems.append(("hang", "nobody can make progress: %s" % ex))
             return False
+        except sim.StepLimit as ex:
+            # a side keeps running without ever coming to rest: e.g. it meets the end of the stream on every serve() and never closes
+            problems.append(("spin", "the two sides never come to rest (%s): closed flags A=%s B=%s" % (
+                ex, p.a.conn.closed, p.b.conn.closed)))
+            return False
         if tag in side.results:
             kind, val = side.results[tag]
             outcomes[tag] = classify(kind, val)
@@ -288,6 +294,9 @@ def run(chk, wname, fault=None, frag=None, timeout=None, close_order="single", j
             p.settle()
         except sim.Deadlock as ex:
             problems.append(("hang", "at the end: %s" % ex))
+        except sim.StepLimit as ex:
+            problems.append(("spin", "at the end the two sides never come to rest (%s): closed flags A=%s B=%s" % (
+                ex, p.a.conn.closed, p.b.conn.closed)))
         boundary("at quiescence")
         if b_serve_all:
             sar = p.b.serve_all_result
@@ -314,7 +323,7 @@ def run(chk, wname, fault=None, frag=None, timeout=None, close_order="single", j
                 boundary("after late request on " + side.name)
         try:
             p.settle()
-        except sim.Deadlock as ex:
+        except (sim.Deadlock, sim.StepLimit) as ex:
             problems.append(("hang", "after late requests: %s" % ex))
         if anyclosed or fx.fault_fired:
             for side in (p.a, p.b):
@@ -468,8 +477,11 @@ def campaign(chk, wname, frag, timeout, orders, kinds, stride=1, b_serve_all=Fal
         # the side that sits in serve_all() also meets failures of the readiness call (serve_all closes on every way out)
         positions = sorted(positions + [c for (c, side, op) in ops if op == "poll" and side == "B"][::2])
         kinds = tuple(kinds) + ("pollerr",)
+    spins = [0]
     for order in orders:
         for pos in positions[::stride]:
+            if spins[0] >= 3:
+                break                     # reported already; every further run would burn its whole step budget the same way
             for kind in kinds:
                 opname = next(op for (c, s_, op) in ops if c == pos)
                 if kind == "eof" and opname != "recv":
@@ -480,6 +492,8 @@ def campaign(chk, wname, frag, timeout, orders, kinds, stride=1, b_serve_all=Fal
                                                b_serve_all=b_serve_all)
                 chk.evaluated()
                 chk.distinct((wname, frag, timeout, order, pos, kind, b_serve_all))
+                if sum(1 for key, _ in probs if key == "spin"):
+                    spins[0] += 1
                 for key, msg in probs:
                     chk.violation(key, "C11 %s [workload %s, %s at transport call %d (%s), fragmentation %s, close order %s]" % (
                         msg, wname, kind, pos, opname, frag, order),
